@@ -255,6 +255,202 @@ func c12GenCases(r *rand.Rand, tier string, proto string, emit func(string)) {
 		_ = k
 	}
 	emit(c12Line(proto, append([][]byte{{}}, c14Wide(r, 256, 0)...), c12Bytes("", "a", "\x00", "\xff", "ab")))
+	c12GenSignature(r, tier, proto, emit)
+}
+
+
+// ---- signature-adversarial family ----
+//
+// Word sets aimed at registers keyed by a rendered node signature (string / hash keys, separators, decimal ids):
+// alphabets of ASCII digits and typical separator bytes, 30–300 words of length 3–8 with dense suffix sharing, so that
+// node ids reach two and three decimal digits while the labels are themselves digits / separators.
+
+var c12SigSeparators = []byte{',', ':', ';', '|', ' ', '-', '/', '#', 0x00, 0x01, '.', '!'}
+
+// c12SigAlphabet: 2–3 digits (most of the time '1','2'), sometimes all ten digits, sometimes digits plus separators.
+func c12SigAlphabet(r *rand.Rand) []byte {
+	switch r.Intn(8) {
+	case 0, 1, 2:
+		return []byte("12")
+	case 3:
+		d := r.Perm(10)
+		return []byte{byte('0' + d[0]), byte('0' + d[1])}
+	case 4:
+		d := r.Perm(10)
+		return []byte{byte('0' + d[0]), byte('0' + d[1]), byte('0' + d[2])}
+	case 5:
+		return []byte("0123456789")
+	case 6:
+		d := r.Perm(10)
+		return []byte{byte('0' + d[0]), byte('0' + d[1]), c12SigSeparators[r.Intn(len(c12SigSeparators))]}
+	default:
+		a := []byte{'1', '2', c12SigSeparators[r.Intn(len(c12SigSeparators))], c12SigSeparators[r.Intn(len(c12SigSeparators))]}
+		return a
+	}
+}
+
+// c12SigSet: kind 0 = the words of length <= L of a random automaton over the alphabet (regular-ish language, dense
+// sharing), thinned to the wanted size; 1 = random subset of alphabet^{3..L}; 2 = decimal renderings of small numbers and
+// concatenations of two of them; 3 = a few random stems times the words of a small random language (shared suffix trees
+// below many different prefixes).
+func c12SigSet(r *rand.Rand, alpha []byte, kind int) [][]byte {
+	want := 30 + r.Intn(120)
+	if r.Intn(4) == 0 {
+		want = 150 + r.Intn(150)
+	}
+	L := 5 + r.Intn(4)
+	var ws [][]byte
+	randomLanguage := func(maxLen, cap int) [][]byte {
+		k := 3 + r.Intn(5)
+		next := make([][]int, k)
+		final := make([]bool, k)
+		for q := range next {
+			next[q] = make([]int, len(alpha))
+			for a := range alpha {
+				next[q][a] = r.Intn(k + 1) // k = dead
+			}
+			final[q] = r.Intn(3) != 0
+		}
+		var out [][]byte
+		var rec func(q int, cur []byte)
+		rec = func(q int, cur []byte) {
+			if len(out) >= cap {
+				return
+			}
+			if final[q] && len(cur) >= 1 {
+				out = append(out, append([]byte{}, cur...))
+			}
+			if len(cur) == maxLen {
+				return
+			}
+			for a, c := range alpha {
+				if next[q][a] < k {
+					rec(next[q][a], append(cur, c))
+				}
+			}
+		}
+		rec(0, nil)
+		return out
+	}
+	switch kind {
+	case 0:
+		ws = randomLanguage(L, 4000)
+	case 1:
+		for i := 0; i < want*2; i++ {
+			w := make([]byte, 3+r.Intn(L-2))
+			for k := range w {
+				w[k] = alpha[r.Intn(len(alpha))]
+			}
+			ws = append(ws, w)
+		}
+	case 2:
+		m := 20 + r.Intn(400)
+		for i := 0; i < want; i++ {
+			w := []byte(fmt.Sprint(r.Intn(m)))
+			if r.Intn(2) == 0 {
+				w = append(w, []byte(fmt.Sprint(r.Intn(m)))...)
+			}
+			if r.Intn(4) == 0 {
+				w = append(w, c12SigSeparators[r.Intn(len(c12SigSeparators))])
+				w = append(w, []byte(fmt.Sprint(r.Intn(m)))...)
+			}
+			ws = append(ws, w)
+		}
+	case 3:
+		tails := randomLanguage(2+r.Intn(3), 60)
+		for i := 0; i < 4+r.Intn(12); i++ {
+			stem := make([]byte, 1+r.Intn(4))
+			for k := range stem {
+				stem[k] = alpha[r.Intn(len(alpha))]
+			}
+			for _, t := range tails {
+				if r.Intn(6) != 0 {
+					ws = append(ws, append(append([]byte{}, stem...), t...))
+				}
+			}
+		}
+	}
+	ws = c12SortUnique(ws)
+	// thin to the wanted size (keeping the order)
+	for len(ws) > want {
+		drop := r.Perm(len(ws))[:len(ws)-want]
+		sort.Ints(drop)
+		kept := ws[:0:0]
+		di := 0
+		for i, w := range ws {
+			if di < len(drop) && drop[di] == i {
+				di++
+				continue
+			}
+			kept = append(kept, w)
+		}
+		ws = kept
+	}
+	return ws
+}
+
+// c12SigDense: every word over alpha with length in lo..hi, each kept with probability p (dense sharing of suffixes,
+// node ids quickly reach two and three digits; measured best against a register keyed by "label + decimal child id").
+func c12SigDense(r *rand.Rand, alpha []byte, lo, hi int, p float64) [][]byte {
+	var ws [][]byte
+	var rec func(cur []byte)
+	rec = func(cur []byte) {
+		if len(cur) >= lo && r.Float64() < p {
+			ws = append(ws, append([]byte{}, cur...))
+		}
+		if len(cur) == hi {
+			return
+		}
+		for _, c := range alpha {
+			rec(append(cur, c))
+		}
+	}
+	rec(nil)
+	return c12SortUnique(ws)
+}
+
+func c12GenSignature(r *rand.Rand, tier string, proto string, emit func(string)) {
+	n := 3000
+	if tier == "thorough" {
+		n = 20000
+	}
+	if proto == "gob" {
+		n /= 4
+	}
+	for i := 0; i < n; i++ {
+		var alpha []byte
+		var ws [][]byte
+		switch k := r.Intn(20); {
+		case k < 12: // dense subsets over {1,2}
+			alpha = []byte("12")
+			ws = c12SigDense(r, alpha, 3+r.Intn(4), 7+r.Intn(2), 0.3+0.4*r.Float64())
+		case k < 14: // dense subsets over another pair / triple of digits, or a digit pair plus a separator
+			alpha = c12SigAlphabet(r)
+			hi := 7
+			if len(alpha) == 3 {
+				hi = 5
+			} else if len(alpha) > 3 {
+				hi = 3
+				alpha = alpha[:4]
+			}
+			ws = c12SigDense(r, alpha, 1+r.Intn(3), hi, 0.3+0.4*r.Float64())
+		case k < 17: // long random words over {1,2}
+			alpha = []byte("12")
+			m := 60 + r.Intn(240)
+			for j := 0; j < m; j++ {
+				w := make([]byte, 5+r.Intn(6))
+				for t := range w {
+					w[t] = alpha[r.Intn(2)]
+				}
+				ws = append(ws, w)
+			}
+			ws = c12SortUnique(ws)
+		default: // regular-ish languages, stems x tails, decimal numbers over assorted digit / separator alphabets
+			alpha = c12SigAlphabet(r)
+			ws = c12SigSet(r, alpha, r.Intn(4))
+		}
+		emit(c12Line(proto, ws, c12Probes(r, ws, alpha, 6)))
+	}
 }
 
 func c12GenDawg(r *rand.Rand, tier string, emit func(string)) { c12GenCases(r, tier, "dawg", emit) }
